@@ -190,6 +190,13 @@ fn oracle(s: &ProgScene<X>, t: &Trace) -> Vec<Violation> {
 
 #[allow(clippy::too_many_arguments)]
 fn make_case(progs: &[Vec<A>], spawn: SpawnCfg, attach: Attach, start_err: Option<usize>, tick: bool, owner: bool) -> Case {
+    make_case_slow(progs, spawn, attach, start_err, tick, owner, 0)
+}
+
+/// `slow_start`: started() takes this many ticks (with a handler timeout configured in `spawn`,
+/// which must not apply to started())
+#[allow(clippy::too_many_arguments)]
+fn make_case_slow(progs: &[Vec<A>], spawn: SpawnCfg, attach: Attach, start_err: Option<usize>, tick: bool, owner: bool, slow_start: u32) -> Case {
     let mut clients = vec![];
     for (c, p) in progs.iter().enumerate() {
         let ops: Vec<Op> = p.iter().enumerate().map(|(i, a)| to_op(*a, msg_id(c, i))).collect();
@@ -217,12 +224,14 @@ fn make_case(progs: &[Vec<A>], spawn: SpawnCfg, attach: Attach, start_err: Optio
     if tick {
         role.started_actions.push(Action::Interval { timer: 1, period: 1 });
     }
+    role.started_sleep = slow_start;
     let stream = attach != Attach::None;
     let desc = format!(
-        "lifecycle {:?} strat={:?} mailbox={} attach={:?} start_err={:?} tick={} progs={}",
+        "lifecycle {:?} strat={:?} mailbox={} timeout={:?} slow_start={slow_start} attach={:?} start_err={:?} tick={} progs={}",
         if stream { "stream" } else { "plain" },
         spawn.strat,
         spawn.mailbox.name(),
+        spawn.timeout,
         attach,
         start_err,
         tick,
@@ -230,7 +239,7 @@ fn make_case(progs: &[Vec<A>], spawn: SpawnCfg, attach: Attach, start_err: Optio
     );
     Case {
         desc,
-        exec: ExecCfg { horizon: 3, ..ExecCfg::default() },
+        exec: ExecCfg { horizon: 3 + slow_start as u64 * 3, ..ExecCfg::default() },
         bound: None,
         scene: Box::new(ProgScene { spawn, attach, roles: vec![role], clients, extra: X { stream, start_err }, oracle }),
     }
@@ -284,6 +293,20 @@ fn cases(tier: Tier) -> Vec<Case> {
                                 v.push(make_case(&[vec![A::Consume], q], spawn, Attach::None, start_err, tick, true));
                             }
                         }
+                    }
+                }
+            }
+        }
+    }
+    // a handler timeout is configured and started() takes longer than it: the timeout is about
+    // handlers, started() still completes before anything is handled (also on restart)
+    for &mb in mbs {
+        for strat in [Strat::Default, Strat::Recreate] {
+            for fail in [false, true] {
+                let spawn = SpawnCfg { mailbox: mb, strat, timeout: Some((2, fail)) };
+                for n in 1..=2 {
+                    for p in seqs(&[A::Send, A::Call, A::StopAddr, A::Restart], n) {
+                        v.push(make_case_slow(&[p], spawn, Attach::None, None, false, false, 5));
                     }
                 }
             }
